@@ -26,8 +26,13 @@ def klass(a):
 
 
 def sig(a, what):
-    return "%s:scheme=%s:host=%s:port=%s:dial=%s" % (
-        what, FAMILY[a["scheme"]], a["hk"], "set" if a["port"] else "none", a["dial"])
+    """signature = kind of deviation + the address class that matters for it (not the scheme, spelling or
+    concrete numbers), so that one root cause gives a handful of signatures"""
+    dial = "none" if a["dial"] == "none" else ("with-port" if a["dport"] else "without-port")
+    s = "%s:host=%s:port=%s:dial_addr=%s" % (what, a["hk"], "set" if a["port"] else "none", dial)
+    if what.startswith("sni"):
+        s += ":scheme=" + FAMILY[a["scheme"]]
+    return s
 
 
 def loop_ok(a):
@@ -67,7 +72,7 @@ def judge(ctx, c, r, job_case):
             out.append((sig(a, "host=" + o["host"]), "%s: connected to %s (%s host), expected the %s host" % (
                 where, o["host_raw"], o["host"], exp["host"])))
         elif o["port"] != exp["port"]:
-            out.append((sig(a, "wrong-port") + ":dialport=" + ("set" if a["dport"] else "none"),
+            out.append((sig(a, "wrong-port"),
                         "%s: connected to port %d, expected %d" % (where, o["port"], exp["port"])))
         elif o["sni"] != exp["sni"]:
             out.append((sig(a, "sni=" + o["sni"]), "%s: TLS server name %r (%s, handshake %s), expected the %s host" % (
@@ -75,13 +80,18 @@ def judge(ctx, c, r, job_case):
     return out
 
 
-def drive(ctx, binary, cases, picks, timeout_ms=3000):
+def drive(ctx, binary, cases, picks, timeout_ms=2000):
     jc = mk_job(cases, picks)
+    import time
+    t0 = time.time()
     recs, _ = vlib.run_driver(ctx, binary, stdin_obj={"cases": jc, "workers": 16, "timeout_ms": timeout_ms},
                               timeout=1500)
     if len(recs) != len(jc):
         raise vlib.Infra("driver returned %d results for %d cases" % (len(recs), len(jc)))
     recs.sort(key=lambda r: r["id"])
+    slow = sorted(recs, key=lambda r: -(r["ms"] - r["lock_ms"]))[:6]
+    log("driver: %d cases in %.1fs; slowest: %s" % (len(recs), time.time() - t0, [
+        (r["ms"] - r["lock_ms"], r["mode"], r["addr"], r["dial_addr"], r["tries"]) for r in slow]))
     return jc, recs
 
 
@@ -89,10 +99,6 @@ def evaluate(ctx, cases, picks, jc, recs):
     skipped = [r for r in recs if r.get("skipped")]
     inconcl = [r for r in recs if r.get("inconclusive") and not r.get("skipped")]
     good = [r for r in recs if not r.get("skipped") and not r.get("inconclusive")]
-    if len(skipped) + len(inconcl) > max(5, len(recs) // 20):
-        raise vlib.Infra("too many unobservable cases: %d skipped (%s), %d inconclusive (%s)" % (
-            len(skipped), skipped[0].get("skipped") if skipped else "", len(inconcl),
-            inconcl[0].get("inconclusive") if inconcl else ""))
     nviol = 0
     for r in good:
         c = cases[picks[r["id"]][0]]
@@ -112,6 +118,11 @@ def evaluate(ctx, cases, picks, jc, recs):
             info.get("line_in_trace"), info.get("event"), r["addr"], r["dial_addr"]),
             {"case": jc[r["id"]], "expected": c["exp"], "mayReject": c["mayReject"],
              "unasserted": c["unasserted"], "observed": r})
+    # dead-driver check last (guide rule 9): only when nothing was rejected
+    if not ctx.violations and not ctx.known_hits and len(skipped) + len(inconcl) > max(5, len(recs) // 20):
+        raise vlib.Infra("too many unobservable cases: %d skipped (%s), %d inconclusive (%s)" % (
+            len(skipped), skipped[0].get("skipped") if skipped else "", len(inconcl),
+            inconcl[0].get("inconclusive") if inconcl else ""))
     return good, skipped, inconcl, nviol, len(rej)
 
 
@@ -197,16 +208,16 @@ def run(ctx):
                      and not cases[picks[r["id"]][0]]["unasserted"]), None)
         if base is None:
             raise vlib.Infra("no accepted trace with a connection to corrupt")
+        bads = []
         for field, f in (("port", lambda v: v % 65535 + 1), ("host", lambda v: "other")):
             bad = copy.deepcopy(base)
             for e in bad:
                 if e["ev"] == "Conn":
                     e[field] = f(e[field])
-            acc, rej = vlib.validate_traces(ctx, "Addr_Trace", "Addr_Trace.cfg", [bad], label="corrupted " + field)
-            ctx.cov["traces_validated_against_impl"] -= acc
-            if not rej:
-                raise vlib.Infra("binding self-check failed: trace with corrupted %s was accepted" % field)
-        ctx.cov["binding_selfcheck"] = "Conn.port and Conn.host corrupted in an accepted trace: rejected by TLC"
+            bads.append(bad)
+        bads.append([e for e in copy.deepcopy(base) if e["ev"] != "Conn"])
+        vlib.assert_rejects(ctx, "Addr_Trace", "Addr_Trace.cfg", bads,
+                            "Conn.port changed; Conn.host -> other; all Conn events removed")
 
     asserted = [r for r in good if not cases[picks[r["id"]][0]]["unasserted"]]
     ctx.cov["evaluations"] = len(good)
